@@ -502,7 +502,7 @@ func (g *vgen) mapLen(d *TypeDesc) int {
 	n := 0
 	w := []int{15, 25, 45, 8}
 	if d.K == KSet {
-		w = []int{15, 20, 40, 25} // the set header has the list header's short/long forms
+		w = []int{10, 15, 30, 45} // the set header has the list header's short/long forms
 	}
 	switch weighted(g.t, "mlen", w) {
 	case 1:
@@ -569,6 +569,32 @@ func (g *vgen) val(d *TypeDesc, c ctx, noNil bool) Recipe {
 			r.K[i] = g.val(d.Key, cKey, true)
 			if d.K == KMap {
 				r.E[i] = g.val(d.Elem, cMapVal, true)
+			}
+		}
+		if n >= 5 {
+			// large maps/sets: make the keys distinct by construction (random small
+			// integers collide and the header sizes 14/15/16 would never be reached)
+			switch kd := Resolve(d.Key); kd.K {
+			case KI8, KI16, KI32, KI64, KInt:
+				lo, hi := IntRange(kd.K)
+				base := r.K[0].I
+				if base > hi-int64(n) {
+					base = hi - int64(n)
+				}
+				if base < lo {
+					base = lo
+				}
+				for i := range r.K {
+					r.K[i].I = base + int64(i)
+				}
+			case KStr:
+				for i := range r.K {
+					r.K[i].B = append(append([]byte{}, r.K[i].B...), byte('a'+i%26), byte('0'+i/26))
+				}
+			case KF64:
+				for i := range r.K {
+					r.K[i].F = math.Float64bits(float64(i) + 0.5)
+				}
 			}
 		}
 		g.depth--
